@@ -237,15 +237,49 @@ struct S {
     maxk: usize,
     offsets: Vec<u64>,
     widths: Vec<usize>,
+    /// extra units: a multi-word link after L columns of text, every width (wrap position
+    /// relative to the link start is swept systematically)
+    n_offset_units: u64,
+}
+const LINK_TEXTS: [&str; 4] = ["aaa bbb", "aa bbbb c", "a <em>bb</em> cccc", "aaaa<em>bb</em> c"];
+fn offset_doc(u: u64) -> String {
+    let l = (u % 16) as usize;
+    let ti = ((u / 16) % LINK_TEXTS.len() as u64) as usize;
+    let ctx = u / 16 / LINK_TEXTS.len() as u64;
+    // L columns of text in words of at most 3 letters
+    let mut pre = String::new();
+    while pre.len() < l {
+        let n = (l - pre.len()).min(4);
+        pre.push_str(&"xyzw"[..n.saturating_sub(1).max(1)]);
+        pre.push(' ');
+    }
+    let pre = &pre[..l.min(pre.len())];
+    let body = format!("{pre}<a href=\"/1\">{}</a> and <a href=\"/2\">dd</a> e", LINK_TEXTS[ti]);
+    match ctx {
+        0 => format!("<p>{body}</p>"),
+        1 => format!("<ul><li>{body}</li></ul>"),
+        _ => format!("<blockquote>{body}</blockquote>"),
+    }
 }
 fn cfgs() -> Vec<Cfg> {
     vec![Cfg::plain(), Cfg::plain().with(Opt::Footnotes(false)), Cfg::trivial().with(Opt::Footnotes(true)), Cfg::trivial(), Cfg::rich().with(Opt::Footnotes(true))]
 }
 impl Scope for S {
     fn units(&self) -> u64 {
-        *self.offsets.last().unwrap()
+        *self.offsets.last().unwrap() + self.n_offset_units
     }
     fn run_unit(&self, unit: u64, cx: &mut Cx) {
+        if unit >= *self.offsets.last().unwrap() {
+            let h = offset_doc(unit - *self.offsets.last().unwrap());
+            let d = dom::parse(h.as_bytes());
+            let ls = links(&d);
+            for w in 8..=44usize {
+                for cfg in cfgs() {
+                    check_parsed(&h, &ls, false, w, &cfg, cx);
+                }
+            }
+            return;
+        }
         let k = (0..=self.maxk).find(|&k| unit < self.offsets[k + 1]).unwrap();
         let code = unit - self.offsets[k];
         let h = html(&build_doc(code, k));
@@ -262,7 +296,7 @@ impl Scope for S {
     }
     fn info(&self) -> Info {
         Info {
-            rule: "documents of 0..maxk links, each placed in one of 8 containers (paragraph, list item, quote, heading, table cell, nested table cell, dt, pre) with one of 8 contents (text, em, image, empty, whitespace, deeply empty, two words, three words with em; 5 of them for documents of 3+ links), repeated targets; x widths x {plain, plain without footnotes, trivial with/without footnotes, rich with footnotes}; non-trivial = >= 2 links with content".into(),
+            rule: "documents of 0..maxk links, each placed in one of 8 containers (paragraph, list item, quote, heading, table cell, nested table cell, dt, pre) with one of 8 contents (text, em, image, empty, whitespace, deeply empty, two words, three words with em; 5 of them for documents of 3+ links), repeated targets; plus multi-word links placed after 0..15 columns of text in a paragraph / list item / quote at every width 8..=44; x widths x {plain, plain without footnotes, trivial with/without footnotes, rich with footnotes}; non-trivial = >= 2 links with content".into(),
             bounds: json!({"max_links": self.maxk, "places": NPLACES, "contents": NCONTENTS, "widths_3_or_more_links": self.widths, "widths_up_to_2_links": "8..=40"}),
             assumptions: vec!["targets are short (no footnote line wraps at the explored widths)".into()],
         }
@@ -279,7 +313,7 @@ impl Prop for P {
         for k in 0..=maxk {
             offsets.push(offsets[k] + ((NPLACES * ncontents(k)) as u64).pow(k as u32));
         }
-        Box::new(S { maxk, offsets, widths: tier.pick(vec![10, 12, 20, 40], vec![10, 11, 12, 16, 20, 40, 120]) })
+        Box::new(S { maxk, offsets, widths: tier.pick(vec![10, 12, 20, 40], vec![10, 11, 12, 16, 20, 40, 120]), n_offset_units: 16 * LINK_TEXTS.len() as u64 * 3 })
     }
     fn replay(&self, case: &Value, cx: &mut Cx) {
         let (html, w, cfg) = case_from_json(case);
